@@ -25,6 +25,8 @@ type ctx struct {
 	w     *bufio.Writer
 	f     *os.File
 	count int
+	// cleanOnly: generators avoid raw (garbage) FOpts whose decoding depends on the process-global registry
+	cleanOnly bool
 }
 
 func newCtx(seed int64, n int, mode, cases, out string) (*ctx, error) {
@@ -230,5 +232,7 @@ func (c *ctx) bytesN(n int) []byte {
 	c.rnd.Read(b)
 	return b
 }
+
+func newRand(seed int64) *rand.Rand { return rand.New(rand.NewSource(seed)) }
 
 func (c *ctx) pick(xs ...int) int { return xs[c.rnd.Intn(len(xs))] }
